@@ -20,7 +20,8 @@ REAL_LAWS = ["C17.QuatLengthReal", "C17.QuatComposeReal", "C17.QuatAxisFixed", "
 REQUIRED = ["C17.QuatRotate", "C17.QuatLength", "C17.QuatCompose", "C17.QuatAxisAngle", "C17.RotationTo",
             "C17.MatAdd", "C17.MatMul", "C17.MatDet", "C17.MatInverse", "C17.MatMulPosition",
             "C17.TRSTransform", "C17.TRSTransformArray", "C17.TRSTransformInPlace", "C17.MeshTransform",
-            "C17.BoxNew", "C17.BoxEncapsulate", "C17.BoxTight", "C17.BoxContains", "C17.BoxClosest"] + REAL_LAWS
+            "C17.BoxNew", "C17.BoxEncapsulate", "C17.BoxTight", "C17.BoxContains", "C17.BoxClosest",
+            "C17.RotationToNear"] + REAL_LAWS
 
 PARAMS = {
     "quick": dict(group_depth=4, mat_depth=2, mat_ks="{1}", mat_bound=4, mat_sim=8, mat_sim_depth=8, wordlen=2,
@@ -104,7 +105,7 @@ def collect_cases(ctx):
     cases += uniq
 
     # (3) plain enumerations
-    consts = {"Families": '{"basis", "rotto", "rotax", "rotq", "trs", "mesh"}', "WordLen": P["wordlen"]}
+    consts = {"Families": '{"basis", "rotto", "rotnear", "rotax", "rotq", "trs", "mesh"}', "WordLen": P["wordlen"]}
     r = _tlc(ctx, "enum", "AlgebraCases", consts, ["Emit"])
     enum = [v for v in r.values if isinstance(v, dict) and "k" in v]
     notes["enum_cases"] = len(enum)
@@ -175,6 +176,8 @@ def discriminator(case):
         if a == [-x for x in b]:
             return "rotto/antiparallel"
         return "rotto/general"
+    if k == "rotnear":
+        return "rotnear/" + ("antiparallel" if case["anti"] else "parallel")
     if k == "trs":
         return "trs/" + case["ctor"]
     if k == "mesh":
